@@ -73,3 +73,12 @@ Theorem C03_side_conditions_needed :
          else so_status o = St_ERR_BAD_USAGE /\ so_tuples o = []).
 Proof. exact ScanCounterexamples.scan_refines_false_from_WF_store_alone. Qed.
 Print Assumptions C03_side_conditions_needed.
+
+(** ** System level (SysScanProofs): after ANY history of storage and data operations, a scan of any storage
+    returns exactly what the map-of-maps specification returns (status and tuples) *)
+From Yk Require Import SysProofs SysScanProofs.
+Theorem C03_sys_scan_exact : forall ops n a, Forall op_bytes ops -> op_bytes (OScan n a) ->
+  abs_out (snd (exec (fst (exec_all sys_init ops)) (OScan n a))) =
+  snd (spec_exec (fst (spec_exec_all spec_init ops)) (OScan n a)).
+Proof. exact sys_scan_exact. Qed.
+Print Assumptions C03_sys_scan_exact.
